@@ -193,6 +193,34 @@ class Ctx:
                 n += 1
         return n
 
+    def before(self, a, b):
+        """Every call labelled `a` on this path happens before every call labelled `b` (python bool)."""
+        ia = [i for i, (l, _) in enumerate(self._st.trace) if l in (a, a + "!raise")]
+        ib = [i for i, (l, _) in enumerate(self._st.trace) if l in (b, b + "!raise")]
+        return not ia or not ib or max(ia) < min(ib)
+
+    def labels_matching(self, regex):
+        import re
+        return [l for l, _ in self._st.trace if re.search(regex, l)]
+
+    def fold_unit(self, fold, x):
+        """Definitional instance of a fold at a one-element sequence: F([x]) == f(x) (always true; a proof hint)."""
+        x = S.lift(x, fold.sort.elem)
+        return S.V(S.BOOL, fold.f(z3.Unit(x.t)) == S.lift(fold.elem(x)).t)
+
+    def rev_hints(self, a, b=None):
+        """Axiom instances of list reversal (always true; proof hints): Rev(Rev(a)) == a, |Rev(a)| == |a|,
+        and with b: Rev(a ++ b) == Rev(b) ++ Rev(a)."""
+        rv = self._e.spec.rev.get(a.s.name)
+        if rv is None:
+            raise EngineError("no use_rev() for %s" % a.s)
+        facts = [rv(rv(a.t)) == a.t, z3.Length(rv(a.t)) == z3.Length(a.t),
+                 z3.Implies(z3.Length(a.t) == 0, rv(a.t) == a.t)]
+        if b is not None:
+            facts += [rv(z3.Concat(a.t, b.t)) == z3.Concat(rv(b.t), rv(a.t)), rv(rv(b.t)) == b.t,
+                      z3.Implies(z3.Length(b.t) == 0, rv(b.t) == b.t)]
+        return S.V(S.BOOL, z3.And(*facts))
+
     def in_loop(self):
         return any(l == "loop*" for l, _ in self._st.trace)
 
@@ -206,7 +234,7 @@ class Ctx:
     def has(self, n):
         return n in self._st.env
 
-    def local(self, n):
+    def var(self, n):
         """A program variable whose name collides with a Ctx attribute (result, args, old, ...)."""
         if n not in self._st.env:
             raise SpecDrift("spec refers to variable %r which does not exist at this point" % n)
